@@ -19,14 +19,22 @@
 (*   EarlyClean  - committed writers are forgotten at commit                  *)
 EXTENDS Integers, Sequences, FiniteSets, TLC
 CONSTANTS Trans, Keys, MaxOps, NoDupRead, LoseMinKey, EarlyClean,
+          WithExclusive, \* TRUE: an exclusive schema operation (index build / table load) with a duration:
+                         \* AddExcl ... EndExcl, writers are refused while it lasts and, afterwards, as long
+                         \* as they began before it ended (check.go exclusive map, cleanEnded)
+          ExclLe,        \* deviation: cleanEnded forgets exclusive entries with `end <= oldest` (both are
+                         \* MaxInt while the operation is in progress and no transaction is active)
           WithAborts    \* TRUE: also explore aborts by the client (Rollback), by the checker tick (MaxAge)
                         \* and by a table becoming exclusive (index build / table load)
 \* Keys is a set of integers; db maps key -> 0 (absent) or writer id (>0)
 VARIABLES db, seq, st, start, end, snap, wr, q, nops,
           actv, cmtd, reads, outs, dels, hasUpd, rc, failed,
-          obs, bad
+          obs, bad,
+          excl,     \* the checker's entry for the table: 0 = none, INF = in progress, else the end sequence number
+          exreal,   \* history: the same, never forgotten
+          exbad     \* history: a transaction that began before the operation ended committed writes
 
-vars == <<db, seq, st, start, end, snap, wr, q, nops, actv, cmtd, reads, outs, dels, hasUpd, rc, failed, obs, bad>>
+vars == <<db, seq, st, start, end, snap, wr, q, nops, actv, cmtd, reads, outs, dels, hasUpd, rc, failed, obs, bad, excl, exreal, exbad>>
 
 INF == 1000
 DUPREAD(k) == IF NoDupRead THEN <<>> ELSE << [m |-> "read", lo |-> k, hi |-> k] >>
@@ -55,6 +63,7 @@ Init == /\ db = [k \in Keys |-> 0]
         /\ failed = [t \in Trans |-> FALSE]
         /\ obs = [t \in Trans |-> <<>>]
         /\ bad = FALSE
+        /\ excl = 0 /\ exreal = 0 /\ exbad = FALSE
 
 Begin(t) == /\ st[t] = "idle"
             /\ seq' = seq + 2
@@ -62,14 +71,14 @@ Begin(t) == /\ st[t] = "idle"
             /\ snap' = [snap EXCEPT ![t] = db]
             /\ st' = [st EXCEPT ![t] = "active"]
             /\ actv' = actv \cup {t}
-            /\ UNCHANGED <<db, end, wr, q, nops, cmtd, reads, outs, dels, hasUpd, rc, failed, obs, bad>>
+            /\ UNCHANGED <<db, end, wr, q, nops, cmtd, reads, outs, dels, hasUpd, rc, failed, obs, bad, excl, exreal, exbad>>
 
 CanOp(t) == st[t] = "active" /\ nops[t] < MaxOps
 
 \* client notices failure when it next talks to the checker
 ClientFail(t) == /\ st[t] = "active" /\ failed[t]
                  /\ st' = [st EXCEPT ![t] = "aborted"]
-                 /\ UNCHANGED <<db, seq, start, end, snap, wr, q, nops, actv, cmtd, reads, outs, dels, hasUpd, rc, failed, obs, bad>>
+                 /\ UNCHANGED <<db, seq, start, end, snap, wr, q, nops, actv, cmtd, reads, outs, dels, hasUpd, rc, failed, obs, bad, excl, exreal, exbad>>
 
 Post(t, msgs) == q' = [q EXCEPT ![t] = q[t] \o msgs]
 
@@ -77,13 +86,13 @@ CLookup(t, k) == /\ CanOp(t) /\ ~failed[t]
                  /\ obs' = [obs EXCEPT ![t] = Append(obs[t], [kind |-> "lookup", k |-> k, res |-> View(t)[k], w |-> wr[t]])]
                  /\ Post(t, << [m |-> "read", lo |-> k, hi |-> k] >>)
                  /\ nops' = [nops EXCEPT ![t] = nops[t] + 1]
-                 /\ UNCHANGED <<db, seq, st, start, end, snap, wr, actv, cmtd, reads, outs, dels, hasUpd, rc, failed, bad>>
+                 /\ UNCHANGED <<db, seq, st, start, end, snap, wr, actv, cmtd, reads, outs, dels, hasUpd, rc, failed, bad, excl, exreal, exbad>>
 
 CScan(t) == /\ CanOp(t) /\ ~failed[t]
             /\ obs' = [obs EXCEPT ![t] = Append(obs[t], [kind |-> "scan", k |-> 0, res |-> {k \in Keys : View(t)[k] # 0}, w |-> wr[t]])]
             /\ Post(t, << [m |-> "read", lo |-> MinK, hi |-> MaxK] >>)
             /\ nops' = [nops EXCEPT ![t] = nops[t] + 1]
-            /\ UNCHANGED <<db, seq, st, start, end, snap, wr, actv, cmtd, reads, outs, dels, hasUpd, rc, failed, bad>>
+            /\ UNCHANGED <<db, seq, st, start, end, snap, wr, actv, cmtd, reads, outs, dels, hasUpd, rc, failed, bad, excl, exreal, exbad>>
 
 COutput(t, k, id) == /\ CanOp(t) /\ ~failed[t]
                  /\ View(t)[k] = 0   \* dup check passes (otherwise error, no change)
@@ -91,7 +100,7 @@ COutput(t, k, id) == /\ CanOp(t) /\ ~failed[t]
                  /\ obs' = [obs EXCEPT ![t] = Append(obs[t], [kind |-> "lookup", k |-> k, res |-> 0, w |-> wr[t]])]
                  /\ Post(t, DUPREAD(k) \o << [m |-> "output", lo |-> k, hi |-> k] >>)
                  /\ nops' = [nops EXCEPT ![t] = nops[t] + 1]
-                 /\ UNCHANGED <<db, seq, st, start, end, snap, actv, cmtd, reads, outs, dels, hasUpd, rc, failed, bad>>
+                 /\ UNCHANGED <<db, seq, st, start, end, snap, actv, cmtd, reads, outs, dels, hasUpd, rc, failed, bad, excl, exreal, exbad>>
 
 CDelete(t, k) == /\ CanOp(t) /\ ~failed[t]
                  /\ View(t)[k] # 0
@@ -100,12 +109,12 @@ CDelete(t, k) == /\ CanOp(t) /\ ~failed[t]
                  /\ wr' = [wr EXCEPT ![t][k] = 0]
                  /\ Post(t, << [m |-> "delete", lo |-> k, hi |-> k] >>)
                  /\ nops' = [nops EXCEPT ![t] = nops[t] + 1]
-                 /\ UNCHANGED <<db, seq, st, start, end, snap, actv, cmtd, reads, outs, dels, hasUpd, rc, failed, obs, bad>>
+                 /\ UNCHANGED <<db, seq, st, start, end, snap, actv, cmtd, reads, outs, dels, hasUpd, rc, failed, obs, bad, excl, exreal, exbad>>
 
 CCommit(t) == /\ st[t] = "active" /\ ~failed[t]
               /\ st' = [st EXCEPT ![t] = "committing"]
               /\ Post(t, << [m |-> "commit", lo |-> 0, hi |-> 0] >>)
-              /\ UNCHANGED <<db, seq, start, end, snap, wr, nops, actv, cmtd, reads, outs, dels, hasUpd, rc, failed, obs, bad>>
+              /\ UNCHANGED <<db, seq, start, end, snap, wr, nops, actv, cmtd, reads, outs, dels, hasUpd, rc, failed, obs, bad, excl, exreal, exbad>>
 
 Ended(u) == end[u] # INF
 Overlap(t, u) == end[t] > start[u] /\ end[u] > start[t]
@@ -146,7 +155,7 @@ DRead(t) ==
                 /\ AbortSet(confA)
                 /\ reads' = [u \in Trans |-> IF u \in confA THEN {} ELSE IF u = t THEN reads[t] \cup {<<m.lo, m.hi>>} ELSE reads[u]]
                 /\ UNCHANGED <<rc, hasUpd>>
-  /\ UNCHANGED <<db, seq, st, start, end, snap, wr, nops, cmtd, obs, bad>>
+  /\ UNCHANGED <<db, seq, st, start, end, snap, wr, nops, cmtd, obs, bad, excl, exreal, exbad>>
 
 \* ---- dispatch write (output or delete of key k)
 DWrite(t) ==
@@ -161,6 +170,9 @@ DWrite(t) ==
      /\ Pop(t)
      /\ IF t \notin actv
         THEN UNCHANGED <<actv, failed, reads, outs, dels, rc, hasUpd>>
+        ELSE IF start[t] < excl
+        THEN \* "conflict with exclusive"
+             /\ AbortSet({t}) /\ UNCHANGED <<rc, hasUpd>>
         ELSE IF ~hasUpd[t] /\ rc[t]
         THEN \* gotUpdate aborts
              /\ AbortSet({t}) /\ UNCHANGED <<rc, hasUpd>>
@@ -178,7 +190,7 @@ DWrite(t) ==
              /\ hasUpd' = [hasUpd EXCEPT ![t] = TRUE]
              /\ \E S \in SUBSET rdU : S # rdU /\ AbortSet(S \cup {t})
              /\ \E N \in SUBSET rdN : rc' = [u \in Trans |-> rc[u] \/ u \in N]
-  /\ UNCHANGED <<db, seq, st, start, end, snap, wr, nops, cmtd, obs, bad>>
+  /\ UNCHANGED <<db, seq, st, start, end, snap, wr, nops, cmtd, obs, bad, excl, exreal, exbad>>
 
 \* serializability check of t at commit against current db
 ObsOK(t) == \A i \in 1..Len(obs[t]) :
@@ -215,7 +227,26 @@ DCommit(t) ==
                      IN /\ cmtd' = keep
                         /\ outs' = [u \in Trans |-> IF u \in cmtd \ keep \/ u = t THEN {} ELSE outs[u]]
                         /\ dels' = [u \in Trans |-> IF u \in cmtd \ keep \/ u = t THEN {} ELSE dels[u]]
-  /\ UNCHANGED <<start, snap, wr, nops, hasUpd, rc, failed, obs>>
+  /\ LET act2 == IF t \in actv THEN actv \ {t} ELSE actv
+         oldest == IF act2 = {} THEN INF ELSE CHOOSE s \in {start[u] : u \in act2} : \A u \in act2 : s <= start[u]
+     IN excl' = IF t \in actv /\ excl # 0 /\ (excl < oldest \/ (ExclLe /\ excl = oldest)) THEN 0 ELSE excl
+  /\ exbad' = (exbad \/ (t \in actv /\ hasUpd[t] /\ start[t] < exreal))
+  /\ UNCHANGED <<start, snap, wr, nops, hasUpd, rc, failed, obs, exreal>>
+
+\* ---- the exclusive operation with a duration (WithExclusive)
+AddExcl ==
+  /\ WithExclusive /\ exreal = 0
+  /\ AbortSet({u \in actv : outs[u] # {} \/ dels[u] # {}})
+  /\ excl' = INF /\ exreal' = INF
+  /\ UNCHANGED <<db, seq, st, start, end, snap, wr, q, nops, cmtd, hasUpd, rc, obs, bad, exbad>>
+EndExcl ==
+  /\ WithExclusive /\ exreal = INF
+  /\ seq' = seq + 2
+  /\ exreal' = seq + 2
+  /\ LET oldest == IF actv = {} THEN INF ELSE CHOOSE s \in {start[u] : u \in actv} : \A u \in actv : s <= start[u]
+     IN excl' = IF excl # INF THEN excl                 \* EndExclusive of a forgotten entry does nothing
+                ELSE IF seq + 2 < oldest THEN 0 ELSE seq + 2
+  /\ UNCHANGED <<db, st, start, end, snap, wr, q, nops, actv, cmtd, reads, outs, dels, hasUpd, rc, failed, obs, bad, exbad>>
 
 \* ---- aborts (checkco.go ckAbort / check.go tick / AddExclusive): the checker drops the
 \* transaction at any moment; messages still queued for it are ignored when dispatched
@@ -223,7 +254,7 @@ DCommit(t) ==
 DAbort(t) ==
   /\ WithAborts /\ t \in actv
   /\ AbortSet({t})
-  /\ UNCHANGED <<db, seq, st, start, end, snap, wr, q, nops, cmtd, hasUpd, rc, obs, bad>>
+  /\ UNCHANGED <<db, seq, st, start, end, snap, wr, q, nops, cmtd, hasUpd, rc, obs, bad, excl, exreal, exbad>>
 
 \* AddExclusive(table): every active transaction that has written to the table is aborted
 DExclusive ==
@@ -231,18 +262,20 @@ DExclusive ==
   /\ LET ws == {u \in actv : outs[u] # {} \/ dels[u] # {}} IN
        /\ ws # {}
        /\ AbortSet(ws)
-  /\ UNCHANGED <<db, seq, st, start, end, snap, wr, q, nops, cmtd, hasUpd, rc, obs, bad>>
+  /\ UNCHANGED <<db, seq, st, start, end, snap, wr, q, nops, cmtd, hasUpd, rc, obs, bad, excl, exreal, exbad>>
 
 Next == \/ \E t \in Trans :
           \/ Begin(t) \/ ClientFail(t) \/ CScan(t) \/ CCommit(t)
           \/ DRead(t) \/ DWrite(t) \/ DCommit(t) \/ DAbort(t)
           \/ \E k \in Keys : CLookup(t, k) \/ CDelete(t, k) \/ COutput(t, k, 1)
-        \/ DExclusive
+        \/ DExclusive \/ AddExcl \/ EndExcl
 
 Spec == Init /\ [][Next]_vars
 
 (* C01 *)
 Serializable == ~bad
+(* no transaction that began before an exclusive operation ended commits writes to its table *)
+ExclusiveRespected == ~exbad
 (* C02: the snapshot of a running transaction never changes *)
 SnapshotStable == [][\A t \in Trans : st[t] \in {"active", "committing"} => snap'[t] = snap[t]]_vars
 (* C03: the database changes only in the commit step of a transaction that is
